@@ -330,4 +330,45 @@ Section Conc.
     forallb (fun t => match t_status t with TPanic => false | _ => true end) (c_threads c) &&
     match c_poisoned c with [] => true | _ => false end.
 
+  (* ---------------- the same executions with explicit guards (for the deadlock-freedom theorem) -------------
+     A critical section is split into ACQUIRE (may block: a writer excludes everybody, readers exclude writers) and
+     BODY+RELEASE.  A thread holds a guard only between the two, and the second is always enabled. *)
+  Record guard := mkG { g_tid : nat; g_node : nat; g_write : bool }.
+  Record gconfig := mkGC { gc_cfg : config; gc_held : list guard }.
+
+  Definition conflicts (held : list guard) (tid u : nat) (w : bool) : bool :=
+    existsb (fun g => Nat.eqb (g_node g) u && negb (Nat.eqb (g_tid g) tid) && (w || g_write g)) held.
+  Definition holds (held : list guard) (tid : nat) : bool := existsb (fun g => Nat.eqb (g_tid g) tid) held.
+
+  Inductive gresult := GMoved (c : gconfig) | GBlocked | GIdle.
+
+  Definition gstep (directed : bool) (c : gconfig) (tid : nat) : gresult :=
+    match nth_error (c_threads (gc_cfg c)) tid with
+    | Some t =>
+        match t_status t, t_cur t with
+        | TRun, Some (Step u w _) =>
+            if holds (gc_held c) tid then
+              (* body + release: exactly the atomic step of [cstep] *)
+              GMoved (mkGC (fst (cstep directed (gc_cfg c) tid))
+                           (filter (fun g => negb (Nat.eqb (g_tid g) tid)) (gc_held c)))
+            else if conflicts (gc_held c) tid u w then GBlocked
+            else GMoved (mkGC (gc_cfg c) (mkG tid u w :: gc_held c))
+        | _, _ => GIdle
+        end
+    | None => GIdle
+    end.
+
+  Inductive greach (directed : bool) (c0 : gconfig) : gconfig -> Prop :=
+  | gr_refl : greach directed c0 c0
+  | gr_step : forall c tid c', greach directed c0 c -> gstep directed c tid = GMoved c' -> greach directed c0 c'.
+
+  Definition unfinished (c : gconfig) : Prop :=
+    exists tid t, nth_error (c_threads (gc_cfg c)) tid = Some t /\ runnable t = true.
+  (* some thread still has work but no thread can move *)
+  Definition deadlocked (directed : bool) (c : gconfig) : Prop :=
+    unfinished c /\ forall tid c', gstep directed c tid <> GMoved c'.
+
+  Definition ginit (directed : bool) (h : heap) (progs : list (list call)) : gconfig :=
+    mkGC (init_config directed h progs) [].
+
 End Conc.
